@@ -1,7 +1,7 @@
 """C11 - runs are deterministic and independent of process history.
 
 Search over run histories issued through the programmatic entry point in ONE
-process: every sequence of <=2 (thorough <=3) runs from an alphabet of 14 run
+process: every sequence of <=2 (thorough <=3) runs from an alphabet of 18 run
 descriptors (successful and failing) is executed in a fresh child process;
 each run's PQR bytes must equal the bytes the same run produces alone in a
 fresh process.  After every run a structural fingerprint of pdb2pqr's
@@ -20,7 +20,7 @@ from .. import build, engine, pipeline
 PROPERTY = "C11"
 LEVEL = "model_checking"
 RULE = (
-    "all histories of length <=2 (thorough <=3) over a 14-run alphabet, each "
+    "all histories of length <=2 (thorough <=3) over an 18-run alphabet, each "
     "in its own fresh process, plus every run alone under hash seeds 0,1,2 "
     "and a seed-derived one; states = distinct process-state fingerprints, "
     "transitions = distinct (fingerprint, run, fingerprint') edges; "
@@ -35,14 +35,15 @@ ASSUMPTIONS = [
     "process with PYTHONHASHSEED=0",
 ]
 BOUND = {
-    "quick": "14 single runs x 4 hash seeds; all 196 histories of length 2",
-    "thorough": "quick + all 2744 histories of length 3 + 8 hash seeds",
+    "quick": "18 single runs x 4 hash seeds; all 324 histories of length 2; 54 interleaved repetition histories of length 11-13 (every run 6-7 times with the others in between)",
+    "thorough": "quick + all 5832 histories of length 3 + 8 hash seeds",
 }
 
 ETHANOL = (engine.REPO / "tests/data/ethanol.mol2")
 RUNS = ["pep_amber", "pep_parse_opts", "strand_charmm", "titrated",
         "ligand", "clean", "fail_parse", "fail_charge", "userff_ok",
-        "repair", "bare_model", "two_models", "fail_gap", "cif_models"]
+        "repair", "bare_model", "two_models", "fail_gap", "cif_models",
+        "cif_layout2", "propka_a", "propka_b", "c2_symmetric"]
 
 
 def execute(rid):
@@ -146,6 +147,49 @@ def execute(rid):
             models.append(m)
         return pipeline.run(c10.cif_text(models), ["--ff=AMBER"],
                             input_name="in.cif"), meta
+    if rid == "cif_layout2":
+        # a second mmCIF file whose atom_site loop is laid out differently
+        # (item order, *_esd items) from the first one's
+        from . import c10
+        m = build.build_peptide(["THR", "ASP", "GLY"])
+        m.append(build.water((9.0, 9.0, 9.0), 100))
+        for a in m:
+            a["alt"] = ""
+        return pipeline.run(c10.cif_text([m], layout=5), ["--ff=AMBER"],
+                            input_name="in.cif"), meta
+    if rid in ("propka_a", "propka_b"):
+        # the real PROPKA on two different structures that carry the same
+        # file name, at a pH where their protonation states differ
+        seq = (["ALA", "ASP", "GLU", "HIS", "ALA"] if rid == "propka_a"
+               else ["GLY", "HIS", "LYS", "GLU", "TYR", "GLY"])
+        atoms = build.build_peptide(seq)
+        return pipeline.run(build.pdb_text(atoms), [
+            "--ff=PARSE", "--titration-state-method=propka",
+            "--with-ph=3.0"]), meta
+    if rid == "c2_symmetric":
+        # two copies related by an exact two-fold axis (x,y,z)->(-x,-y,z)
+        # and waters on the axis: candidate hydrogen bonds of bit-identical
+        # length (ties in every distance-ordered list)
+        import numpy as np
+
+        a = build.build_peptide(["ALA", "SER", "ASN", "ALA"], chain="A")
+        og = next(x for x in a if x["name"] == "OG")["xyz"].copy()
+        cen = np.mean([x["xyz"] for x in a], axis=0)
+        u = cen - og
+        u[2] = 0.0
+        u /= np.linalg.norm(u)
+        v = np.array([-u[1], u[0], 0.0])
+        Rz = np.array([u, v, [0.0, 0.0, 1.0]])  # u -> +x
+        for x in a:
+            x["xyz"] = np.round(Rz @ (x["xyz"] - og)
+                                + np.array([2.2, 0.0, 0.0]), 3)
+        b = build.build_peptide(["ALA", "SER", "ASN", "ALA"], chain="B")
+        for x, y in zip(a, b):
+            y["xyz"] = np.array([-x["xyz"][0], -x["xyz"][1], x["xyz"][2]])
+        waters = [build.water((0.0, 0.0, 1.732), 101),
+                  build.water((0.0, 0.0, -1.732), 102)]
+        return pipeline.run(build.pdb_text(a + b + waters),
+                            ["--ff=AMBER"]), meta
     if rid == "userff_ok":
         # a second, different user force-field pair (the bundled one)
         atoms = build.build_peptide(["GLY", "SER", "LYS"])
@@ -255,6 +299,16 @@ def enumerate_cases(tier, seed):
     for a in RUNS:
         for b in RUNS:
             cases.append({"mode": "history", "history": [a, b]})
+    # long histories: every run repeated with other runs in between (state
+    # that drifts with what the process allocated before, e.g. an order
+    # taken from object addresses, shows only after several repetitions)
+    for a in RUNS:
+        others = [r for r in RUNS if r != a]
+        for k in range(0, len(others), 6):
+            hist = [a]
+            for o in others[k:k + 6]:
+                hist += [o, a]
+            cases.append({"mode": "history", "history": hist})
     if tier == "thorough":
         for a in RUNS:
             for b in RUNS:
